@@ -626,6 +626,34 @@ fn c11_u64_export() {
 }
 
 //@ prop: C11
+//@ drives: MemSink<u64>::write_to_byte_slice into a destination LONGER than the stored words (a preallocated buffer)
+//@ bound: any valid state of 0..=2 words; destination of 8*words+5 bytes (longer than the content, not a multiple of the word size)
+//@ asserts: byte j of the export = byte j (big endian) of the word string for every stored byte (so the unwritten tail bits read as zero), and every destination byte beyond the stored words is left untouched
+#[kani::proof]
+#[kani::unwind(26)]
+fn c11_u64_export_longer_destination() {
+    fn body<const K: usize>() -> bool {
+    let (s, w, _k, len) = any_pre_u64_k::<K>();
+    let mut dest = [0xAAu8; 24];
+    s.write_to_byte_slice(&mut dest[..8 * K + 5]);
+    let mut j = 0;
+    while j < 24 {
+        if j < 8 * K {
+            let e = (w[j / 8] >> (56 - 8 * (j % 8))) as u8;
+            assert!(dest[j] == e);
+        } else {
+            assert!(dest[j] == 0xAA);
+        }
+        j += 1;
+    }
+    let c = len == 77;
+    std::mem::forget(s);
+    c
+    }
+    dispatch_k!(body);
+}
+
+//@ prop: C11
 //@ drives: MemSink<u8>::write_to_byte_slice, MemSink<u8>::as_slice
 //@ bound: any valid state of 0..=2 bytes
 #[kani::proof]
